@@ -82,7 +82,9 @@ def sweep(run, thorough):
             for rlist in (4, 5, 6, 7, 9, 12, 14, 15):
                 cases.append(dict(body=f"; .arch riscv{xlen} ; .feature zcmp ; {mn} {RLIST_TEXT[rlist]}, v", vars=[("v", "i32")]))
                 cmeta.append((xlen, mn, funct, sign, rlist))
-    ok, log = dyn.build("C04Z", cases)
+    import exprhyg
+    all_cases, twin_ix = exprhyg.extend(cases)
+    ok, log = dyn.build("C04Z", all_cases)
     if not ok:
         run.violation("broken-correspondence", {"kind": "harness-build", "harness": "dyn-zcmp"}, "the generated crate with Zcmp run-time stack adjustments does not build", {"log": log[-2000:]}, found_input=False)
     else:
@@ -95,7 +97,9 @@ def sweep(run, thorough):
                     reqs.append((i, [v]))
                     okv = sg == sign and adj >= base and (adj - base) % 16 == 0 and (adj - base) // 16 <= 3
                     want.append(((funct << 8) | (rlist << 4) | (((adj - base) // 16) << 2) | 0b10) if okv or (adj == 0 and False) else None)
-        for (i, vals), w, (st, b) in zip(reqs, want, dyn.run("C04Z", reqs)):
+        zres = dyn.run("C04Z", reqs)
+        stats["expression_twins"] = exprhyg.compare(run, "C04Z", "C03", all_cases, twin_ix, reqs, zres)
+        for (i, vals), w, (st, b) in zip(reqs, want, zres):
             stats["zcmp_runtime"] += 1
             got = int.from_bytes(b, "little") if st == "ok" else None
             if got != w:
@@ -103,6 +107,71 @@ def sweep(run, thorough):
                               f"dynasm!(ops {cases[i]['body']}) with v = {vals[0]}: " + (f"assembles to {got:#06x}" if got is not None else f"panics ({b[:60]})") +
                               (f", the Zcmp encoding is {w:#06x}" if w is not None else " although this stack adjustment cannot be encoded for the register list"),
                               {"stream": "dyn", "case": cases[i], "values": vals})
+    # ------------------------------------------------------------------ Zcmp, register list by count `{ra; n}` (n = number of s registers), and the E profile
+    # n literal: the macro still lowers it to an expression, so the bytes come from rustc; n at run time: `n as _` (the macro binds it as u32 and as u8).
+    # The list must mean exactly what `{ra, s0-s(n-1)}` means; n = 11 does not exist; on RV32E/RV64E only s0 and s1 exist (n <= 2).
+    ccases, cmeta2 = [], []
+    lreq, lmeta = [], []
+    for xlen in (64, 32):
+        for prof in ("", "e"):
+            nmax = 2 if prof == "e" else 12
+            for mn, (funct, sign) in (list(ZCMP.items()) if thorough else [("cm.push", ZCMP["cm.push"]), ("cm.popret", ZCMP["cm.popret"])]):
+                for n in range(0, 15):
+                    rlist = 15 if n == 12 else n + 4
+                    valid = n <= nmax and n != 11 and n <= 12
+                    base = zcmp_base(rlist, xlen) if n <= 12 and n != 11 else 16
+                    body = f"; .arch riscv{xlen}{prof} ; .feature zcmp ; {mn} {{ra; {n}}}, {sign * (base + 16)}"
+                    lreq.append("cl " + body)
+                    lmeta.append((body, ((funct << 8) | (rlist << 4) | (1 << 2) | 0b10) if valid else None))
+                for adj in ((64, 112) if xlen == 64 else (48, 64)):
+                    ccases.append(dict(body=f"; .arch riscv{xlen}{prof} ; .feature zcmp ; {mn} {{ra; n as _}}, {sign * adj}", vars=[("n", "u32")]))
+                    cmeta2.append((xlen, prof, nmax, funct, adj))
+            # the textual list on the E profile: beyond s1 is a compile error
+            for rlist in range(4, 16):
+                body = f"; .arch riscv{xlen}{prof} ; .feature zcmp ; cm.push {RLIST_TEXT[rlist]}, {-(zcmp_base(rlist, xlen))}"
+                lreq.append("cl " + body)
+                lmeta.append((body, ((ZCMP["cm.push"][0] << 8) | (rlist << 4) | 0b10) if (rlist <= 6 or prof == "") else None))
+    lans = plug(lreq)
+    # literal counts: accepted ones are expressions → evaluate them by compiling
+    lit_cases = [dict(body=b, vars=[]) for (b, w), a in zip(lmeta, lans) if a.startswith("ok ") and const16or32(a) == "dynamic"]
+    for (b, w), a in zip(lmeta, lans):
+        stats["zcmp_count_literal"] = stats.get("zcmp_count_literal", 0) + 1
+        got = const16or32(a)
+        if a.startswith("panic"):
+            bad("compile-panic", b, f"panics the compiler: {a[:120]}")
+        elif got == "dynamic":
+            continue
+        elif w is None and got is not None:
+            bad("zcmp-accepts-unencodable", b, f"is accepted and assembles to {got:#06x} although this register list does not exist for the target")
+        elif w is not None and got is None:
+            bad("zcmp-rejects-valid", b, f"is rejected ({a[:90]}) although the register list exists ({w:#06x})")
+        elif w is not None and got != w:
+            bad("zcmp-wrong-field", b, f"assembles to {got:#06x}, the Zcmp encoding is {w:#06x}")
+    ok, log = dyn.build("C04ZN", lit_cases + ccases)
+    if not ok:
+        run.violation("broken-correspondence", {"kind": "harness-build", "harness": "dyn-zcmp-count"}, "the generated crate with Zcmp register lists by count does not build", {"log": log[-2000:]}, found_input=False)
+    else:
+        want_by_body = dict(lmeta)
+        reqs = [(i, []) for i in range(len(lit_cases))]
+        want = [want_by_body[c["body"]] for c in lit_cases]
+        for j, (xlen, prof, nmax, funct, adj) in enumerate(cmeta2):
+            for n in range(0, 17):
+                rlist = 15 if n == 12 else n + 4
+                valid = n <= nmax and n != 11 and n <= 12
+                base = zcmp_base(rlist, xlen) if valid else 0
+                okv = valid and adj >= base and (adj - base) % 16 == 0 and (adj - base) // 16 <= 3
+                reqs.append((len(lit_cases) + j, [n]))
+                want.append(((funct << 8) | (rlist << 4) | (((adj - base) // 16) << 2) | 0b10) if okv else None)
+        allc = lit_cases + ccases
+        for (i, vals), w, (st, b) in zip(reqs, want, dyn.run("C04ZN", reqs)):
+            stats["zcmp_count_runtime"] = stats.get("zcmp_count_runtime", 0) + 1
+            got = int.from_bytes(b, "little") if st == "ok" else None
+            if got != w:
+                run.violation("failing-input", {"kind": "zcmp-count", "case": allc[i]["body"][:70]},
+                              f"dynasm!(ops {allc[i]['body']})" + (f" with n = {vals[0]}" if vals else "") + ": " +
+                              (f"assembles to {got:#06x}" if got is not None else f"panics ({b[:60]})") +
+                              (f", the Zcmp encoding is {w:#06x}" if w is not None else " although this register list / stack adjustment does not exist for the target"),
+                              {"stream": "dyn", "case": allc[i], "values": vals})
     # ------------------------------------------------------------------ Zfa fli
     reqs, meta = [], []
     for (mn, feat, fmt) in (("fli.s", "f, zfa", 0b00), ("fli.d", "d, zfa", 0b01), ("fli.h", "zfh, zfa", 0b10), ("fli.q", "q, zfa", 0b11)):
